@@ -114,7 +114,8 @@ def solve(formula, display=True, log=False, params={}):
         print('Solution status: {0}'.format(status))
         print('Running time: {0:0.4f}s'.format(stime))
 
-    if info['exitFlag'] in [0, 10]:
+    mixed_integer = len(bool_idx) + len(int_idx) > 0
+    if info['exitFlag'] == 0 or (info['exitFlag'] == 10 and not mixed_integer):
         x_vec = sol['x']
         solution = Solution('ECOS', info['pcost'], x_vec, status, stime, y=y)
     else:
